@@ -366,6 +366,15 @@ func runCase(c *harness.Ctx, id string, ac *acase, uniq int) {
 				fail("served-bid-is-not-the-winner", fmt.Sprintf("the block relay serves bid %x/%s, the auction's winner is %x/%s", sh[:3], sv, wh[:3], wv))
 			}
 		}
+		// a request for the same slot and proposer on another parent (a reorg inside the slot) is not answered with this
+		// auction's result: whatever is served builds on the parent asked for
+		other := phase0.Hash32{8, 8, 8}
+		if served2, _ := via.env.Svc.BuilderBid(ctx, theSlot, other, via.acct.Pub48()); served2 != nil {
+			if ph, err := served2.ParentHash(); err == nil && ph != other {
+				fail("served-bid-of-another-parent", fmt.Sprintf("asked for a bid on parent %x the block relay serves one built on parent %x (the result of the auction held for that other parent)", other[:3], ph[:3]))
+			}
+		}
+		c.Count("bids_asked_on_another_parent", 1)
 	}
 	// eligible offers that clearly arrived / may have arrived before the deadline
 	var defBest, genBest *big.Int
